@@ -22,7 +22,7 @@ def plan_shards(tier, parsers=False, bases=None, nshards_big=48, quick_pairs=("f
     (combinations of >= 3 edits only when they collide on one component or are frame-level)."""
     cases = []
     if bases is None:
-        bases = QUICK_BASES_11 + (["frame_parsing", "index_parsing", "series_index_parsing"] if parsers else [])
+        bases = QUICK_BASES_11 + (["frame_parsing", "index_parsing", "series_index_parsing", "frame_multi_unordered"] if parsers else [])
     for b in bases:
         for sh in range(4):
             cases.append({"base": b, "ks": 1, "kd": 1, "shard": [sh, 4], "parsers": parsers, "rich": True})
